@@ -39,7 +39,9 @@ EXPLANATION = (
     "the layout loop may live in a private helper the three consumers call, templates may be f-strings/.format/%, key components may "
     "be unpacked, offsets may be written on either side; an index whose provenance is not understood ends in ANALYSIS-ERROR, a "
     "violation is reported only when it is positively something else (enumerate position, hand-advanced counter, literal, ...).  "
-    "NOT decided: the values of derivatives, DFDP numerics, the vector field itself (C01), PAR slot numbers (C18)."
+    "R9 (added) the Fortran DFDU/DFDP block numbers a parameter by its PAR slot from the one slot list (name -> slot by zip with the "
+    "sequence the slots were computed for), never by its position (shares the slot typing of C18-R1).  "
+    "NOT decided: the values of derivatives, DFDP numerics, the vector field itself (C01), the slot arithmetic itself (C18)."
 )
 RULE_TEXT = ("instances = entry-table stores found by def-use from sympy.diff calls, emitter call sites / templates found by name "
              "resolution and f-string templates, layout loops found by their iteration domain; each is decided by reaching "
@@ -316,8 +318,40 @@ def graph_cls(ctx):
     return ctx.repo.get_class(CG, "ComputeGraph")
 
 
-def cg_func(ctx, name):
-    return ctx.repo.get_func(CG, f"ComputeGraph.{name}")
+# methods of ComputeGraph that the rules read through their analysis view (private helpers spliced in, anchors kept as calls)
+CG_VIEWED = ("to_func", "get_jacobian_func", "_compute_symbolic_jacobian", "_get_symbolic_rhs", "_expr_to_jac_str",
+             "_process_var_update")
+
+
+def cg_func(ctx, name, raw=False):
+    """The ComputeGraph method `name`; for the methods in CG_VIEWED its analysis view (same qualname: obligations reported with it
+    keep their construct keys).  raw=True: the function as written."""
+    f = ctx.repo.get_func(CG, f"ComputeGraph.{name}")
+    if raw or name not in CG_VIEWED:
+        return f
+    return analysis_view(ctx, f, keep=CG_ANCHORS)
+
+
+def cg_methods(ctx) -> list:
+    """All methods of ComputeGraph as the rules should scan them: views for CG_VIEWED, the raw function for the others, minus the
+    private helpers that were spliced into one of the views (their statements are already seen there)."""
+    cached = getattr(ctx, "_c12_methods", None)
+    if cached is not None:
+        return cached
+    views = []
+    spliced = set()
+    for name, f in graph_cls(ctx).methods.items():
+        if name in CG_VIEWED:
+            v = cg_func(ctx, name)
+            views.append(v)
+            for h in getattr(v, "inlined_helpers", ()) or ():
+                spliced.add(h.split("::")[-1])
+    out = list(views)
+    for name, f in graph_cls(ctx).methods.items():
+        if name not in CG_VIEWED and f.qualname not in spliced:
+            out.append(f)
+    ctx._c12_methods = out
+    return out
 
 
 # =================================================================================================
@@ -768,10 +802,17 @@ def extent_operand(S: Scope, e: ast.AST) -> Tuple[str, Optional[ast.AST]]:
         neg = isinstance(t, ast.UnaryOp) and isinstance(t.op, ast.Not)
         if neg:
             t = t.operand
-        if isinstance(t, ast.Call) and call_name(t) == "isinstance" and len(t.args) == 2 and isinstance(t.args[0], ast.Name):
+        if isinstance(t, ast.Call) and call_name(t) == "isinstance" and len(t.args) == 2:
             tup, sca = (e.orelse, e.body) if neg else (e.body, e.orelse)
             I = t.args[0]
             if isinstance(sca, ast.Constant) and sca.value == 1:
+                # structural: I[1] - I[0] for any expression I (e.g. a layout lookup written out three times)
+                if isinstance(tup, ast.BinOp) and isinstance(tup.op, ast.Sub) \
+                        and all(isinstance(x, ast.Subscript) and isinstance(x.slice, ast.Constant) and same_expr(x.value, I)
+                                for x in (tup.left, tup.right)) and tup.left.slice.value == 1 and tup.right.slice.value == 0:
+                    return "extent", I
+                if not isinstance(I, ast.Name):
+                    return "?", None
                 try:
                     d = symx.to_sympy(tup)
                 except symx.Unsupported:
@@ -892,7 +933,7 @@ def check_full_counter(ctx, S: Scope, lay: Layout, c: Counter, sink: ast.AST, el
     else:
         lv = lay.value(I)
         if lv is None:
-            probs.append(f"the increment of `{c.name}` is the extent of `{I.id}`, which is not read from the state layout")
+            probs.append(f"the increment of `{c.name}` is the extent of `{ast.unparse(I)}`, which is not read from the state layout")
         else:
             key = lv.get("key")
             if key is None or _loop_elem_role(S, c.loop, roles, key) != "sym":
@@ -1161,7 +1202,7 @@ def layout_loops(ctx) -> List[LayoutLoop]:
     out: List[LayoutLoop] = []
     ctx._c12_layout_loops = out
     C0, N = sp.Symbol("C0"), sp.Symbol("N", positive=True, integer=True)
-    for f in graph_cls(ctx).methods.values():
+    for f in cg_methods(ctx):
         selfn = f.self_name
         if selfn is None:
             continue
@@ -1389,9 +1430,20 @@ def r2_layout_loops(ctx, rid):
 # emitters
 # =================================================================================================
 
-def _call_args(call: ast.Call, names: List[str]) -> Dict[str, ast.AST]:
+def _call_args(call: ast.Call, names: List[str], S: Optional[Scope] = None) -> Dict[str, ast.AST]:
+    """parameter name -> argument expression.  With a Scope, `*args` whose single definition is a tuple/list display is expanded."""
     out = {}
-    for i, a in enumerate(call.args):
+    pos = []
+    for a in call.args:
+        if isinstance(a, ast.Starred) and S is not None:
+            v = S.single_value(a.value)
+            if isinstance(v, (ast.Tuple, ast.List)) and not any(isinstance(x, ast.Starred) for x in v.elts):
+                pos += list(v.elts)
+                continue
+        pos.append(a)
+    for i, a in enumerate(pos):
+        if isinstance(a, ast.Starred):
+            break
         if i < len(names):
             out[names[i]] = a
     for k in call.keywords:
@@ -1776,12 +1828,12 @@ def text_index_sites(ctx):
     for pm in pmaps:
         pos = [p for p in g.params if p != g.self_name].index(pm)
         ok_all, n_sites = True, 0
-        for caller in graph_cls(ctx).methods.values():
+        for caller in cg_methods(ctx):
             Sc = None
             for c in walk_shallow(caller.node):
                 if isinstance(c, ast.Call) and is_attr_of(c.func, caller.self_name or "", "_expr_to_jac_str"):
                     Sc = Sc or Scope(ctx, caller)
-                    a = _call_args(c, [p for p in g.params if p != g.self_name])
+                    a = _call_args(c, [p for p in g.params if p != g.self_name], Sc)
                     n_sites += 1
                     if pm not in a or not layout_for(ctx, caller, Sc).is_map(a[pm]):
                         ok_all = False
@@ -1883,6 +1935,18 @@ class _Rename(ast.NodeTransformer):
 def _fold_constant_holes(node: ast.AST) -> None:
     """f'{'dfdu'}({r})' -> f'dfdu({r})': literal holes (left behind when a helper's parameter received a literal) become text."""
     for js in [n for n in ast.walk(node) if isinstance(n, ast.JoinedStr)]:
+        # f'{f'_yhist_{d}'}[{i}]' -> f'_yhist_{d}[{i}]': a formatted string in a plain hole is part of the text
+        flat, again = list(js.values), True
+        while again:
+            again, nxt = False, []
+            for v in flat:
+                if isinstance(v, ast.FormattedValue) and isinstance(v.value, ast.JoinedStr) and v.format_spec is None and v.conversion == -1:
+                    nxt.extend(v.value.values)
+                    again = True
+                else:
+                    nxt.append(v)
+            flat = nxt
+        js.values = flat
         vals = []
         for v in js.values:
             if isinstance(v, ast.FormattedValue) and isinstance(v.value, ast.Constant) and v.format_spec is None and v.conversion in (-1, 115) \
@@ -1978,14 +2042,21 @@ def _splice_local_generators(fnode: ast.AST) -> int:
     return count[0]
 
 
-def analysis_view(ctx, f):
+# long-standing methods of ComputeGraph the rules anchor on: they stay calls in a view; every other private helper is spliced in
+CG_ANCHORS = ("_get_symbolic_rhs", "_expr_to_jac_str", "_resolve_derivatives", "_process_var_update", "_compute_symbolic_jacobian",
+              "_extract_past_terms", "_node_to_expr", "_to_str", "_generate_vecfield_var", "_get_var_hist", "_sort_var_updates")
+
+
+def analysis_view(ctx, f, keep=()):
     """The function as the rules look at it: private helpers spliced in (engine.inline), local one-yield generators spliced into the
     loops that consume them, literal f-string holes folded into the text.  A synthetic FunctionInfo (identity semantics) when
     anything changed, else `f` itself.  Obligations must be reported with the ORIGINAL f."""
     cache = ctx.__dict__.setdefault("_c12_views", {})
-    if f in cache:
-        return cache[f]
-    fi = _inlined(ctx, f)
+    ckey = (f, tuple(sorted(keep)))
+    if ckey in cache:
+        return cache[ckey]
+    f_key = ckey
+    fi = _inlined(ctx, f, keep=keep)
     try:
         from engine.inline import clone, _mk, InlinedFunction
         from engine.srcmodel import set_parents
@@ -2003,8 +2074,13 @@ def analysis_view(ctx, f):
             fi = v
     except ImportError:
         pass
-    cache[f] = fi
+    cache[f_key] = fi
     return fi
+
+
+def cg_view(ctx, name):
+    """analysis view of a ComputeGraph method with the anchor methods kept as calls"""
+    return cg_func(ctx, name)
 
 
 def _inlined(ctx, f, keep=()):
@@ -2417,7 +2493,7 @@ def r6_placeholder_map(ctx, rid):
                 return None
         return True
     for c in calls:
-        a = _call_args(c, gp)
+        a = _call_args(c, gp, S)
         tv = table_value(S, a.get(gp[0]), stores) if gp[0] in a else None
         if tv is None or gp[2] not in a:
             raise AnalysisError(f"{rid}: `{norm(c)}`: unrecognised argument form")
@@ -2476,7 +2552,7 @@ def r7_algebraic_expansion_fixpoint(ctx, rid):
       (b) the loop repeats while the expression still changes (decided on the CFG: once the expression was replaced by its
           substituted form, control cannot leave the loop before the loop test was passed again / the change flag is set);
       (c) every DE right-hand side goes through the expander before it is appended to the list that is differentiated."""
-    f = ctx.repo.get_func(CG, "ComputeGraph._get_symbolic_rhs")
+    f = cg_func(ctx, "_get_symbolic_rhs")
     cands = list(f.nested.values())
     for c in walk_shallow(f.node):
         if isinstance(c, ast.Call) and isinstance(c.func, ast.Attribute) and is_attr_of(c.func, f.self_name or ""):
@@ -2676,8 +2752,8 @@ def r8_placeholder_families_disjoint(ctx, rid):
     two families are built from a counter each; if both families use the same name template, the k-th delayed term takes over
     the placeholder of state variable k and every occurrence of that state variable is printed as a history component."""
     checked = 0
-    for q in ("ComputeGraph._expr_to_jac_str",):
-        f = ctx.repo.get_func(CG, q)
+    for q in ("_expr_to_jac_str",):
+        f = cg_func(ctx, q)
         S = Scope(ctx, f)
         fams = []
         for c in walk_shallow(f.node):
@@ -2714,6 +2790,62 @@ def r8_placeholder_families_disjoint(ctx, rid):
         raise AnalysisError(f"{rid}: no placeholder printer analysed")
 
 
+def r9_jacobian_parameter_slots(ctx, rid):
+    """The DFDP column of a parameter and the `args(k)` a parameter symbol is printed as inside DFDU/DFDP entries must be that
+    parameter's PAR slot - the number the one slot list (result of _auto_param_indices) assigns to its NAME - because the RHS call,
+    STPNT and parnames address parameters by these slots (they skip auto-07p's reserved range, so slot != position from the 10th
+    parameter on).  Decided with the slot typing of rules/c18.py (C18-R1) applied to the Jacobian block: the block receives the slot
+    list together with the very name sequence it was computed for, pairs them by zip, and every `dfdp(i,k)` / `__PYR_ARG_k__` hole is
+    a lookup in the name->slot map built from that pairing (never an enumerate position)."""
+    from . import c18
+    gen = ctx.repo.get_func(FORT, "FortranBackend._generate_auto_files")
+    genv = _inlined(ctx, gen, keep=("_emit_auto_jacobian_block", "_auto_param_indices"))
+    Sg = Scope(ctx, genv)
+    jb0 = ctx.repo.get_func(FORT, "FortranBackend._emit_auto_jacobian_block")
+    jparams = [p for p in jb0.params if p != jb0.self_name]
+    calls = [c for c in walk_shallow(genv.node) if isinstance(c, ast.Call) and call_name(c) == "_emit_auto_jacobian_block"]
+    slot_calls = [c for c in walk_shallow(genv.node) if isinstance(c, ast.Call) and call_name(c) == "_auto_param_indices"]
+    ctx.require(len(calls) == 1 and len(slot_calls) == 1 and slot_calls[0].args and isinstance(slot_calls[0].args[0], ast.Name),
+                f"{rid}: hand-over of the PAR slots to _emit_auto_jacobian_block not recognised")
+    a = _call_args(calls[0], jparams)
+    Mg = c18.SlotModel(ctx, genv, Sg)
+    A = slot_calls[0].args[0]
+    slot_param = names_param = None
+    for k, v in a.items():
+        if isinstance(v, ast.Name):
+            bs = Sg.binds(v)
+            if len(bs) == 1 and bs[0].kind == "value" and bs[0].expr is slot_calls[0]:
+                slot_param = k
+                Mg.lists[v.id] = ("full", A, Mg.defs(A))
+    if slot_param is None:
+        raise AnalysisError(f"{rid}: `{norm(calls[0])}` does not receive the result of _auto_param_indices (unrecognised form)")
+    listname = next(iter(Mg.lists))
+    for k, v in a.items():
+        if k != slot_param and Mg.same_sequence(listname, v):
+            names_param = k
+    label = "Jacobian block receives slots with their names"
+    if names_param is None:
+        ctx.violation(rid, gen, calls[0], f"`{norm(calls[0])}` hands the PAR slot list to the Jacobian block without the name sequence it was "
+                                          f"computed for: DFDP columns / args(k) references inside the entries belong to other parameters",
+                      label=label)
+        return
+    ctx.ok(rid, gen, calls[0], f"the block receives the slot list as `{slot_param}` and the sequence it was computed for as `{names_param}`",
+           label=label)
+    jb = analysis_view(ctx, jb0)
+    Sj = Scope(ctx, jb)
+    Mj = c18.SlotModel(ctx, jb, Sj)
+    pdefs = frozenset({id(jb.node.args)})
+    Mj.lists[slot_param] = ("full", ast.Name(id=names_param, ctx=ast.Load()), pdefs)
+    Mj.same_sequence = lambda listname, x: isinstance(x, ast.Name) and x.id == names_param and Mj.defs(x) == pdefs
+    uses = [n for n in walk_shallow(jb.node) if isinstance(n, ast.Name) and isinstance(n.ctx, ast.Load) and n.id == slot_param]
+    if not uses:
+        ctx.violation(rid, jb0, jb0.node, f"the Jacobian block never reads the slot list `{slot_param}`: parameters are numbered some other "
+                                          f"way (by position) while the RHS call, STPNT and parnames use the slots", label="slot list is used")
+    c18._classify_list_uses(ctx, rid, jb, Sj, Mj, None)
+    n = c18._check_templates(ctx, rid, jb, Sj, Mj)
+    ctx.require(n >= 2, f"{rid}: expected a dfdp(i,k) line and a __PYR_ARG_k__ substitution in the Jacobian block, found {n} slot-bearing templates")
+
+
 RULES = [
     ("C12-R1", r1_index_provenance, 20),     # 8 row/column stores, 2 emitters, 1 hand-over, 2 Fortran lines, 5 text indices, 2 hooks
     ("C12-R2", r2_layout_loops, 6),          # 3 loops x (extent) + 2 sibling comparisons + per-DE lists
@@ -2723,4 +2855,5 @@ RULES = [
     ("C12-R6", r6_placeholder_map, 2),
     ("C12-R7", r7_algebraic_expansion_fixpoint, 3),       # 2 _expr_to_jac_str call sites
     ("C12-R8", r8_placeholder_families_disjoint, 1),
+    ("C12-R9", r9_jacobian_parameter_slots, 4),          # hand-over, zip pairing, dfdp(i,k), __PYR_ARG_k__
 ]
